@@ -10,11 +10,17 @@ CHECKS = {
  "C01": ("explicit-state BFS over the real contract in a chain simulator, ghost ledger of moved tokens vs State query, both token-factory builds", "3"),
  "C02": ("explicit-state BFS over the real contract in a chain simulator, bank balance vs obligations on every state", "3"),
  "C03": ("explicit-state BFS over the real contract in a chain simulator, token-factory supply / balances / IBC deliveries on every state and stake, both builds", "3"),
+ "C04": ("exhaustive grids over the two rate functions (small cube + 131^3 boundary lattice up to 2^128) against independent 256-bit arithmetic, execute-level min/zero/expected grid, plus BFS history monitor on every stake/submit", "3"),
  "C05": ("explicit-state BFS over all withdrawal orders against a reference request table", "3"),
  "C06": ("explicit-state BFS with deadline-boundary time alphabet against a reference lifecycle", "3"),
  "C07": ("exhaustive fault enumeration (ack ok/err/timeout/submit failure/stray acks/recoveries) inside the BFS against a reference packet table", "3"),
  "C11": ("explicit-state BFS over reward/fee-config/withdraw histories with independent fee arithmetic", "3"),
+ "C12": ("complete BFS over nominate/revoke/accept by 4 principals with 7d-1s/7d/7d+1s time moves, both contracts, in lock-step with a 3-variable reference machine", "3"),
+ "C13": ("exhaustive grid: all allow-lists (<=2 routes of <=2 hops) x all candidate routes (<=3 hops) x coins x limits x senders through the real treasury execute, emitted message decoded by an independent protobuf reader", "3"),
+ "C14": ("exhaustive single+pair field corruption of valid configs on instantiate and on UpdateConfig with all 32 section subsets, judged by an independent well-formedness predicate on the stored config", "3"),
  "C15": ("explicit-state BFS, oracle payload decoded and compared with rates recomputed from the post-state", "3"),
+ "C18": ("exhaustive grid of pre-upgrade stores (legacy types) x stored versions x names x migrate messages with raw-storage diff and post-upgrade recovery in the simulator", "3"),
+ "C19": ("two cargo-feature builds explore the same graphs; token-factory messages decoded by a hand-written reader; state/transition digests compared across builds", "3"),
  "C16": ("explicit-state BFS with every entry point under catch_unwind and overflow checks on", "3"),
 }
 NA = {}
